@@ -129,12 +129,12 @@ pub open spec fn envelope(t: StructureTag) -> Option<Env> {
         frame_status(old(buf).view()) is NeedMore ==> (r matches Ok(None)) && final(buf).view() == old(buf).view(), //# C06.incomplete_frame_leaves_buffer_intact
         frame_status(old(buf).view()) matches FrameStatus::Frame(n, t) ==> final(buf).view() == old(buf).view().subrange(n as int, old(buf).view().len() as int), //# C06.exactly_the_frame_is_consumed
         // C11: anything but NeedMore is delivered or rejected, never "need more"
-        !(frame_status(old(buf).view()) is NeedMore) ==> !(r matches Ok(None)), //# C06+C11.complete_frame_is_delivered_or_rejected
-        frame_status(old(buf).view()) is Invalid ==> r is Err, //# C11.parser_failure_is_decoding_error
-        frame_status(old(buf).view()) matches FrameStatus::Frame(n, t) ==> (envelope(t) is None ==> r is Err), //# C11.malformed_envelope_is_decoding_error
+        !(frame_status(old(buf).view()) is NeedMore) ==> !(r matches Ok(None)), //# C04+C06+C11.complete_frame_is_delivered_or_rejected
+        frame_status(old(buf).view()) is Invalid ==> r is Err, //# C04+C11.parser_failure_is_decoding_error
+        frame_status(old(buf).view()) matches FrameStatus::Frame(n, t) ==> (envelope(t) is None ==> r is Err), //# C04+C11.malformed_envelope_is_decoding_error
         // C01/C03: id, protocolOp and controls come from the same envelope
         frame_status(old(buf).view()) matches FrameStatus::Frame(n, t) ==> (envelope(t) matches Some(e) ==>
-            ((e.controls matches Some(c) && controls_of(c) is None) ==> r is Err)), //# C11.malformed_control_list_is_decoding_error
+            ((e.controls matches Some(c) && controls_of(c) is None) ==> r is Err)), //# C04+C11.malformed_control_list_is_decoding_error
         frame_status(old(buf).view()) matches FrameStatus::Frame(n, t) ==> (envelope(t) matches Some(e) ==>
             (!(e.controls matches Some(c) && controls_of(c) is None) ==>
             (r matches Ok(Some(m)) && m.0 == (be_uint(e.id_octets) as i32) && m.1.0 == Tag::StructureTag(e.op)
